@@ -226,6 +226,27 @@ CHECKS = {
     design="DESIGN.md 3.7, 4 (C07)", technique=TECH + " (Scanner.tla)"),
 }
 NOT_YET = {}
+# legs added by wave 6 of the seeded regressions (DESIGN.md 0.4), appended to the level text of the property
+WAVE6 = {
+ "C01": "Column names also drawn from whole-word (sort directions, referential actions, modifiers) and `#` / `$` pools; one-letter literals that are literal prefixes elsewhere ('N', 'E', 'X') among the defaults.",
+ "C02": "Key / unique / foreign-key lists over columns CALLED asc, desc, cascade, first ...; references written without a referenced column list (inline, unnamed, named, compound).",
+ "C03": "Hand scripts outside the generators (a table declared again with IF NOT EXISTS / after DROP TABLE, one statement with an unpaired quote before statements holding literals) must equal the concatenation of their statements parsed alone.",
+ "C04": "Every other output mode gets a slice of the ALTER effects and of the ADD / DROP / RENAME / MODIFY sequences.",
+ "C05": "CRLF versus LF is also compared behind an unpaired apostrophe (comment text, escaped quote).",
+ "C06": "Keyword-shaped column names as the first word of their line (one column per line); every part of project-qualified three-part paths (tables and references) in every delimiter form.",
+ "C07": "Defaults given by ALTER TABLE (MODIFY, ALTER COLUMN, ADD, ADD CONSTRAINT .. DEFAULT .. FOR) are literal positions too, for strings and for numbers (0 included).",
+ "C08": "The `--` marker glued to the comment text / padded with several blanks, for trailing and whole-line comments.",
+ "C09": "Every third case stands among neighbours that carry DEFAULT / COMMENT options of their own.",
+ "C10": "Literal-bearing statements (every literal position x escaped / doubled quotes, separators) are related across modes.",
+ "C12": "Every clause of the catalogue once in every mode and flag configuration; after RENAME COLUMN a key name must be a current or former column name.",
+ "C13": "A statement-prefix matrix (OR REPLACE / TRANSIENT / TEMPORARY / EXTERNAL .. x IF NOT EXISTS x 7 entity kinds) and scripts whose ALTER / INDEX target is not defined: whenever both calls return, the grouped result is the regrouping of the flat one.",
+ "C14": "Process-level side effects: every ordered pair of 12 objects, each history in a fresh interpreter - an object built after another object has run returns what it returns in a fresh process.",
+ "C15": "A twin object holding the byte-identical RegexSerDe script of another object (memoised pre-processing / cached lexer state).",
+ "C16": "Empty statements (a line holding only `;`) inside supported scripts; CREATE TABLE statements the grammar rejects inside a later item are unsupported input (no partial entity).",
+ "C18": "Table types whose columns carry options (inline key => not nullable), type names / schema parts that are reserved words.",
+ "C19": "An input path that is a symbolic link to a file of another base name (the dump is named after the path given).",
+ "C20": "Every second cache-fault history builds its first parser in strict mode (silent=False).",
+}
 def main():
     props = [json.loads(l) for l in open(os.path.join(HERE, "properties.jsonl"))]
     checks = []
@@ -241,7 +262,7 @@ def main():
                 "evidence_file": f"/verif/evidence/{pid}.json",
                 "replay_cmd_template": f"./check {pid} --replay {{path}}",
                 "engine": "tlc+replay",
-                "level_claimed": {"category": "model_checking", "text": c["text"], "design_ref": c["design"]},
+                "level_claimed": {"category": "model_checking", "text": c["text"] + (" " + WAVE6[pid] if pid in WAVE6 else ""), "design_ref": c["design"]},
                 "level_note": c["note"],
                 "technique": c["technique"],
             })
